@@ -5,7 +5,7 @@ tier=${1:-quick}
 ids=$(python3 -c "import json;print(' '.join(c['property_id'] for c in json.load(open('MANIFEST.json'))['checks']))")
 rc=0
 for id in $ids; do
-  ./check $id $tier | tail -1
+  ./check $id $tier | grep -E "^$id (quick|thorough):|^selftest:|^VIOLATION|SELFTEST-GAP"
   [ ${PIPESTATUS[0]} -ne 0 ] && rc=1
 done
 exit $rc
